@@ -28,6 +28,12 @@ def run_one(path, expect_violation):
         props = json.load(open(mj))["property"].split()
         if os.path.exists(os.path.join(os.path.dirname(path), "check_with.txt")):
             props = open(os.path.join(os.path.dirname(path), "check_with.txt")).read().split()
+    try:
+        claimed = {c["property_id"] for c in json.load(open(os.path.join(VERIF, "MANIFEST.json")))["checks"]}
+    except Exception:
+        claimed = None
+    if claimed is not None and props and not any(p in claimed for p in props):
+        return (path, "SKIP", "property %s is not claimed (not_applicable in MANIFEST.json): no check to run" % " ".join(props))
     tmp = tempfile.mkdtemp(prefix="govc-selftest-")
     try:
         dst = os.path.join(tmp, "repo")
